@@ -117,6 +117,11 @@ impl TorrentMaps {
             None
         };
 
+        #[cfg(feature = "verif")]
+        if opt_scrape_export_writer.is_some() {
+            aquatic_common::verif::probe("udp:export:created", 0);
+        }
+
         let ipv4 = self.ipv4.clean_and_get_statistics(
             config,
             &mut statistics_messages,
@@ -155,6 +160,9 @@ impl TorrentMaps {
         }
 
         if let Some(mut w) = opt_scrape_export_writer.take() {
+            #[cfg(feature = "verif")]
+            aquatic_common::verif::probe("udp:export:before_flush", 0);
+
             if let Err(err) = w.flush() {
                 ::log::error!(
                     "Could not flush writes to temporary scrape export file at path {}: {:?}",
@@ -163,6 +171,9 @@ impl TorrentMaps {
                 );
             } else {
                 drop(w);
+
+                #[cfg(feature = "verif")]
+                aquatic_common::verif::probe("udp:export:flushed", 0);
 
                 if let Err(err) = ::std::fs::rename(
                     config.scrape_exports.tmp_path(),
@@ -174,6 +185,9 @@ impl TorrentMaps {
                         err
                     );
                 }
+
+                #[cfg(feature = "verif")]
+                aquatic_common::verif::probe("udp:export:renamed", 0);
             }
         }
     }
@@ -223,6 +237,9 @@ impl<I: Ip> TorrentMapShards<I> {
             }
         };
 
+        #[cfg(feature = "verif")]
+        aquatic_common::verif::probe("udp:announce:got_peer_map", request.info_hash.0[0] as u64);
+
         let mut peer_map = peer_map.write();
 
         peer_map.announce(
@@ -242,6 +259,9 @@ impl<I: Ip> TorrentMapShards<I> {
         };
 
         for info_hash in request.info_hashes {
+            #[cfg(feature = "verif")]
+            aquatic_common::verif::probe("udp:scrape:next_hash", info_hash.0[0] as u64);
+
             let torrent_map_shard = self.get_shard(&info_hash);
 
             let statistics = if let Some(peer_map) = torrent_map_shard.read().get(&info_hash) {
@@ -277,6 +297,13 @@ impl<I: Ip> TorrentMapShards<I> {
             .torrent_peer_histograms
             .then(|| Histogram::new(3).expect("create peer histogram"));
 
+        #[cfg(feature = "verif")]
+        let verif_ip_version = I::version_char().to_digit(10).unwrap_or(0) as u64 * 1000;
+        #[cfg(feature = "verif")]
+        let mut verif_shard_index = 0u64;
+        #[cfg(feature = "verif")]
+        let mut verif_num_lines = 0u64;
+
         // Remove expired peers; optionally calculate statistics and export
         // scrape information
         for torrent_map_shard in self.0.iter() {
@@ -289,7 +316,23 @@ impl<I: Ip> TorrentMapShards<I> {
                 .map(|(info_hash, peers)| (*info_hash, peers.clone()))
                 .collect::<Vec<_>>();
 
+            #[cfg(feature = "verif")]
+            {
+                aquatic_common::verif::probe(
+                    "udp:clean:shard_refs_cloned",
+                    verif_ip_version + verif_shard_index,
+                );
+
+                verif_shard_index += 1;
+            }
+
             for (info_hash, peer_map) in torrent_references {
+                #[cfg(feature = "verif")]
+                aquatic_common::verif::probe(
+                    "udp:clean:before_peer_map",
+                    verif_ip_version + info_hash.0[0] as u64,
+                );
+
                 let mut peer_map = peer_map.write();
 
                 let (num_seeders, num_leechers) = match peer_map.deref_mut() {
@@ -339,6 +382,16 @@ impl<I: Ip> TorrentMapShards<I> {
                                 err
                             );
                         }
+
+                        #[cfg(feature = "verif")]
+                        {
+                            verif_num_lines += 1;
+
+                            aquatic_common::verif::probe(
+                                "udp:export:line",
+                                verif_ip_version + verif_num_lines,
+                            );
+                        }
                     }
                 }
 
@@ -348,7 +401,20 @@ impl<I: Ip> TorrentMapShards<I> {
 
         // Now, remove torrents that are forbidden by the access list or which
         // have no peers. This unavoidably locks a whole shard at a time.
+        #[cfg(feature = "verif")]
+        let mut verif_shard_index = 0u64;
+
         for torrent_map_shard in self.0.iter() {
+            #[cfg(feature = "verif")]
+            {
+                aquatic_common::verif::probe(
+                    "udp:clean:phase2_shard",
+                    verif_ip_version + verif_shard_index,
+                );
+
+                verif_shard_index += 1;
+            }
+
             let mut torrent_map_shard = torrent_map_shard.write();
 
             torrent_map_shard.retain(|info_hash, peer_map| {
